@@ -316,6 +316,42 @@ def random_supplement(run, rnd, count):
     run.part("random-supplement", histories=n, note="seeded; non-deciding")
 
 
+def _large_one(args):
+    overflow, hist = args
+    v, key, _ = run_history(overflow, hist)
+    if v is None:
+        v = drain(overflow, hist)
+    return overflow, hist, v
+
+
+def large_migrations(run, pool, tier):
+    """Migrations that copy more than one COPY_BYTES piece (thresholds as large as the shipped defaults)."""
+    from waitress import buffers
+
+    C = buffers.COPY_BYTES
+    work = []
+    for overflow in (C + 1000, 2 * C + 1000, 524288, 1048576):
+        for a1 in (C - 1, C, C + 1, 2 * C + 5):
+            if a1 >= overflow:
+                continue
+            for consume in (None, ("getskip", 5), ("skip", C if a1 > C else 100, True), ("get", 7)):
+                a2 = overflow - a1 + 1
+                hist = [("append", 9000), ("append", a1 - 9000)]  # first into the in-memory file, below the threshold
+                if consume:
+                    hist.append(consume)
+                hist += [("append", a2), ("len",), ("getfile",)]
+                work.append((overflow, tuple(hist)))
+                if tier == "thorough":
+                    work.append((overflow, tuple(hist + [("getskip", C + 3), ("append", 5), ("getfile",)])))
+    n = 0
+    for overflow, hist, v in pool.imap(_large_one, work):
+        n += 1
+        if v is not None:
+            run.violation("overflowable:large-migration", f"overflow={overflow} history={list(hist)}: {v}", {"kind": "overflowable", "overflow": overflow, "history": [list(o) for o in hist]})
+    run.add(states=n, transitions=sum(len(h) for _, h in work), traces_validated_against_impl=n, evaluations=n, distinct_nontrivial=n)
+    run.part("overflowable[large migrations]", histories=n, copy_bytes=C)
+
+
 def main(tier, only=None):
     run = Run("C17", tier)
     rnd = random.Random(common.SEED)
@@ -323,7 +359,7 @@ def main(tier, only=None):
     run.cov["rule"] = (
         "E2 BFS over histories of append/get/get+skip/skip/len/bool/getfile on the real OverflowableBuffer, sizes around STRBUF_LIMIT and the overflow threshold; "
         "states merged on the exact concrete state (representation, file content digest, file position, remain, strbuf); every transition compared with a reference bytearray queue "
-        "and followed by a full drain; distinct_nontrivial = distinct concrete states; ReadOnlyFileBasedBuffer: all histories up to length 3 over prepare sizes/file sizes/start offsets"
+        "and followed by a full drain; plus histories whose migration to the temporary file copies more than one COPY_BYTES piece (thresholds up to the shipped defaults); distinct_nontrivial = distinct concrete states; ReadOnlyFileBasedBuffer: all histories up to length 3 over prepare sizes/file sizes/start offsets"
     )
     run.assume("prune() is outside the quantifier (no server path calls it)", "real TemporaryFile and BytesIO are used; the OS file system is trusted")
     ctx = mp.get_context("fork")
@@ -332,6 +368,8 @@ def main(tier, only=None):
             if only and str(overflow) != only:
                 continue
             bfs(run, overflow, depth, pool, rnd)
+        if not only:
+            large_migrations(run, pool, tier)
     readonly(run)
     random_supplement(run, rnd, 300 if tier == "quick" else 3000)
     run.cov["depth"] = depth
